@@ -31,7 +31,7 @@ import (
 // level-2 blocks
 
 type l2TxSpec struct {
-	K     string `json:"k"` // "x" transfer, "w" world-write-lock test transaction
+	K     string `json:"k"` // "x" transfer, "w" world-write-lock test transaction, "p" set step price (world write lock)
 	From  int    `json:"f,omitempty"`
 	To    int    `json:"t,omitempty"`
 	Value int64  `json:"v,omitempty"`
@@ -40,6 +40,9 @@ type l2TxSpec struct {
 func (s l2TxSpec) String() string {
 	if s.K == "w" {
 		return "W"
+	}
+	if s.K == "p" {
+		return fmt.Sprintf("P=%d", s.Value)
 	}
 	return fmt.Sprintf("%c>%c:%d", 'a'+s.From, 'a'+s.To, s.Value)
 }
@@ -62,6 +65,8 @@ func (b l2Block) build(e *l2Env) []module.Transaction {
 	for i, s := range b.Txs {
 		if s.K == "w" {
 			txs[i] = e.fx.WorldTx(fmt.Sprintf("w%d", i), 1000)
+		} else if s.K == "p" {
+			txs[i] = e.fx.PriceTx(s.Value+int64(i), 1000)
 		} else {
 			txs[i] = l2Transfer(s.From, s.To, s.Value, i, 1000)
 		}
@@ -110,11 +115,11 @@ func l2Blocks(n, m, conc int) []l2Block {
 
 func (b l2Block) shared() bool {
 	for i := range b.Txs {
-		if b.Txs[i].K == "w" {
+		if b.Txs[i].K != "x" {
 			return true
 		}
 		for j := i + 1; j < len(b.Txs); j++ {
-			if b.Txs[j].K == "w" {
+			if b.Txs[j].K != "x" {
 				return true
 			}
 			a, c := b.Txs[i], b.Txs[j]
@@ -222,17 +227,57 @@ func c09Plan(tier string) []c09Phase {
 			{Conc: conc, Txs: []l2TxSpec{a[4], a[3], a[4], a[6]}},
 		}
 	}
+	// blocks in which a governance-style transaction (world write lock, changes
+	// the step price in the system account) sits between transfers: every
+	// transaction read-locks the system account, so the later transfers must
+	// observe the new price (receipts carry it) exactly as in sequential mode
+	price := func(conc int) []l2Block {
+		a := l2Alphabet
+		p := l2TxSpec{K: "p", Value: 20}
+		return []l2Block{
+			{Conc: conc, Txs: []l2TxSpec{a[0], p, a[2]}},
+			{Conc: conc, Txs: []l2TxSpec{a[0], p}},
+			{Conc: conc, Txs: []l2TxSpec{p, a[0]}},
+			{Conc: conc, Txs: []l2TxSpec{a[3], p, a[4]}},
+			{Conc: conc, Txs: []l2TxSpec{a[0], p, a[2], a[5]}},
+			{Conc: conc, Txs: []l2TxSpec{a[0], a[6], p, a[1]}},
+		}
+	}
+	// the reader / writer / reader shapes first (cheap, and the ones a change
+	// to the dependency tracking is most likely to break)
+	rd := func(a int) []l1Step { return []l1Step{{A: a}} }
+	wr := func(a int) []l1Step { return []l1Step{{A: a, W: true}} }
+	focus := []l1Prog{
+		{Txs: []l1Tx{{Locks: []l1Req{{0, false}}, Steps: rd(0)}, {Locks: []l1Req{{0, true}}, Steps: wr(0)}, {Locks: []l1Req{{0, false}}, Steps: rd(0)}}},
+		{Txs: []l1Tx{{Locks: []l1Req{{0, false}}, Steps: rd(0)}, {Locks: []l1Req{{l1World, true}}, Steps: wr(0)}, {Locks: []l1Req{{0, false}}, Steps: rd(0)}}},
+		{Txs: []l1Tx{{Locks: []l1Req{{0, true}}, Steps: wr(0)}, {Locks: []l1Req{{0, false}}, Steps: rd(0)}, {Locks: []l1Req{{0, true}}, Steps: wr(0)}}},
+		{Txs: []l1Tx{{Locks: []l1Req{{0, false}, {1, true}}, Steps: wr(1)}, {Locks: []l1Req{{0, true}}, Steps: wr(0)}, {Locks: []l1Req{{0, false}, {2, true}}, Steps: []l1Step{{A: 0}, {A: 2, W: true}}}}},
+	}
+	focusPhase := func(name string, p int) c09Phase {
+		ph := c09Phase{Name: name, Level: 1, P: p}
+		for i := range focus {
+			ph.Items = append(ph.Items, c09Item{Level: 1, Family: "k3-focus", Prog: &focus[i], P: p, SkipRel: false})
+		}
+		return ph
+	}
+	merge := func(name string, a c09Phase, b c09Phase) c09Phase {
+		a.Name = name
+		a.Items = append(a.Items, b.Items...)
+		return a
+	}
 	if tier != "thorough" {
 		l2 := append(sharedOnly(l2Blocks(3, 5, 2)), four(2)...)
 		l2 = append(l2, four(3)...)
-		// quick: release operations are not preemption points anywhere (the
-		// thorough tier explores k=2 with all scheduling points); cheap level-2
-		// phase first, then level 1, so that a loaded machine covers both levels
+		// quick: release operations are not preemption points (except in the
+		// focus programs); cheap, bug-prone families first so that a loaded
+		// machine still covers both levels before the wall-clock cap
 		return []c09Phase{
+			l2Phase("L2 system-parameter (step price) blocks P<=1", 1, append(price(2), price(3)...)),
+			merge("L1 k=3 focus programs P<=2 (all points) and one-step family P<=1", focusPhase("", 2), l1Phase("", 1, true, k3one)),
 			l2Phase("L2 two-transaction blocks P<=2", 2, l2Blocks(2, 7, 2)),
 			l1Phase("L1 k=2 P<=2 (release operations not preemptible)", 2, true, k2),
 			l2Phase("L2 three/four-transaction blocks P<=1", 1, l2),
-			l1Phase("L1 k=2 retry/empty-root and k=3 P<=2 (release operations not preemptible)", 2, true, k2r, k3one),
+			// the one-step k=3 family at P<=2 (2.5M executions) is in the thorough tier
 		}
 	}
 	var l2a, l2b, l2c []l2Block
@@ -243,10 +288,12 @@ func c09Plan(tier string) []c09Phase {
 		l2c = append(l2c, sharedOnly(l2Blocks(3, 5, c))...)
 	}
 	return []c09Phase{
+		l2Phase("L2 system-parameter (step price) blocks P<=2", 2, append(price(2), price(3)...)),
+		merge("L1 k=3 focus programs P<=3 (all points) and one-step family P<=2", focusPhase("", 3), l1Phase("", 2, true, k3one)),
 		l2Phase("L2 two-transaction blocks P<=2", 2, l2a),
 		l2Phase("L2 three/four-transaction blocks P<=1", 1, l2b),
-		l1Phase("L1 k=2 P<=3 (all scheduling points)", 3, false, k2, k2r),
 		l1Phase("L1 k=3 P<=2 (release operations not preemptible)", 2, true, k3),
+		l1Phase("L1 k=2 P<=3 (all scheduling points)", 3, false, k2, k2r),
 		l1Phase("L1 k=3 one-step P<=3 (release operations not preemptible)", 3, true, k3one),
 		l2Phase("L2 three-transaction blocks P<=2", 2, l2c),
 	}
@@ -790,9 +837,15 @@ func TestVerifC09(t *testing.T) {
 			r.Cap(fmt.Sprintf("phase %s: %d of %d items not (fully) explored before the wall-clock budget", ph.Name, skipped, len(ph.Items)))
 			break
 		}
-		phaseDone[ph.Name] = map[string]interface{}{"preemption_bound_completed": ph.P, "items": len(ph.Items)}
-		if ph.P < minBound[ph.Level] {
-			minBound[ph.Level] = ph.P
+		pmin := ph.P
+		for _, it := range ph.Items {
+			if it.P < pmin {
+				pmin = it.P
+			}
+		}
+		phaseDone[ph.Name] = map[string]interface{}{"preemption_bound_completed": pmin, "items": len(ph.Items)}
+		if pmin < minBound[ph.Level] {
+			minBound[ph.Level] = pmin
 		}
 	}
 
@@ -826,6 +879,10 @@ func TestVerifC09(t *testing.T) {
 
 	for _, h := range harness {
 		r.Sanity(false, "%s", h)
+	}
+	if len(harness) > 0 {
+		// a crashed shard / diverging replay is not a verdict: make bin/check exit 2
+		defer t.Errorf("C09: %d harness error(s), first: %s", len(harness), harness[0])
 	}
 	r.Set("executions", total.Executions)
 	r.Set("phases_completed", phaseDone)
